@@ -114,6 +114,18 @@ pub fn check(c: &Case, obs: &mut Obs) -> R {
             }
         }
     }
+    // anchor: the query the three renderings agree on is the one the builder calls describe (an explicit, fully parenthesised
+    // rendering of the spec with native NULLS FIRST / LAST) — three renderings that agree with each other because all of them lost
+    // the same clause do not denote "the same query" as the statement
+    if let (Some(Ok(base)), Some(reference_sql)) = (&baseline, crate::stmt_ref::ref_stmt(st)) {
+        if let Ok(reference) = execute(&reference_sql, &[]) {
+            obs.label("anchored-to-reference");
+            if let Err((sig, detail)) = compare("reference", &reference, base, is_ordered) {
+                let sig = sig.replace("reference", "all-renderings-differ-from-the-statement-built");
+                return fail(sig, format!("reference rendering of the builder calls: {reference_sql:?}\nSQLite rendering: {:?}\n{detail}\nspec {st:?}", obs_first_note(&inline_texts)));
+            }
+        }
+    }
     let div = divergent_constructs(&inline_texts);
     for dname in &div {
         obs.label(*dname);
@@ -130,6 +142,10 @@ pub fn check(c: &Case, obs: &mut Obs) -> R {
         obs.nontrivial(&inline_texts);
     }
     Ok(())
+}
+
+fn obs_first_note(texts: &[String]) -> String {
+    texts.first().cloned().unwrap_or_default()
 }
 
 /// does the serialised spec contain an order term with `"dir":{"Field":[..]}` and a non-null `"nulls"`?
@@ -155,7 +171,7 @@ pub fn case_strategy() -> impl Strategy<Value = Case> {
 pub fn run(ctx: &mut Ctx) {
     ctx.rule = "cases = statement specs from the portable subset: SELECT (DISTINCT, arithmetic / comparison / logical operators, CASE, IN, EXISTS, BETWEEN, COALESCE / IFNULL / GREATEST / LEAST / CHAR_LENGTH, inner / left joins, \
 derived tables, GROUP BY / HAVING, un-nested set operations, ORDER BY with NULLS FIRST/LAST and FIELD order, LIMIT / OFFSET, CTEs), INSERT VALUES / SELECT / default row, UPDATE, DELETE — over integer data. \
-Each is rendered for the three backends in both modes (six texts), transliterated lexically and executed on SQLite. Non-trivial = the statement returns or changes at least one row and exercises at least one lexically divergent construct \
+Each is rendered for the three backends in both modes (six texts), transliterated lexically and executed on SQLite; the common outcome is also compared with an explicit reference rendering of the builder calls (native NULLS FIRST / LAST), so that three renderings which agree because all of them lost the same clause are noticed. Non-trivial = the statement returns or changes at least one row and exercises at least one lexically divergent construct \
 (MySQL NULLS emulation, set-operation parentheses, function substitution, VALUES ROW, default-row form, text literal with backslash escapes / E'' form); distinct by the pair of MySQL / Postgres texts."
         .into();
     ctx.assumptions.push("executing a transliteration on SQLite evaluates the structure (clauses, grouping, parenthesisation, emulations) the other backend produced; it says nothing about MySQL / Postgres run-time semantics of individual operators".into());
